@@ -436,10 +436,13 @@ def perturb(data, family, spec):
         for t in tabs:
             for r, (ln, keys, idx, toks) in enumerate(t.rows):
                 force = first_rows and r == 0
+                parity = spec.get('parity')
                 # right to left, so that a sign put in front of a token never meets an edited neighbour
                 for k in range(len(toks) - 1, -1, -1):
                     text, s, e = toks[k]
                     if t.has_i and k == 0:
+                        continue
+                    if force and parity is not None and k % 2 != parity:
                         continue
                     if not force and rng.random() >= frac:
                         continue
@@ -840,11 +843,18 @@ def job_c05(job):
     indices = pick_indices(n, job.get('indices', 'some'), rng)
     base_views = {}
     for i in indices:
+        # "at any result time": the last and first result times are also reached the other public ways
+        how = 'index=%d' % i
+        if n > 1 and i == n - 1: how = rng.choice([how, 'index=-1', 'last()'])
+        elif n > 1 and i == 0: how = rng.choice([how, 'first()', 'index=%d' % -n])
+        st['reached-by:' + re.sub(r'-?\d+', 'i' if '-' not in how else '-i', how)] += 1
         try:
-            lst.index = i
+            if how == 'last()': lst.last()
+            elif how == 'first()': lst.first()
+            else: lst.index = int(how.split('=')[1])
             view = dump_view(lst)
         except Exception as e:
-            viol('set-index-raises:%s:%s' % (family, type(e).__name__), 'index = %d raises %s: %s' % (i, type(e).__name__, str(e)[:120]), index=i)
+            viol('set-index-raises:%s:%s' % (family, type(e).__name__), '%s raises %s: %s' % (how, type(e).__name__, str(e)[:120]), index=i, how=how)
             continue
         base_views[i] = view
         printed = {t.name: t for t in sc.blocks[i]}
@@ -863,7 +873,7 @@ def job_c05(job):
                 key = '%s:%s:%s' % (kind, family, re.sub(r'\d+$', '', name))
                 if kind == 'cell' and detail.get('col') == 0 and icolumn_case(printed0.get(name)):
                     key += ':I-column'
-                viol(key, 'result %d, table %s: %s' % (i, name, text), index=i, table=name, **detail)
+                viol(key, 'result %d (reached by %s), table %s: %s' % (i, how, name, text), index=i, table=name, how=how, **detail)
             vs, s2 = check_addressing(t, rows, cols, m, rng, job.get('addr_samples', 12))
             st.update(s2)
             for (kind, text, detail) in vs:
@@ -1405,6 +1415,11 @@ FIXED_VARIANTS = [
     # row made start_of_values take its sign for an exponent sign (every cell of the first column wrong)
     ('TOUGH2/10/case10.listing', {'kind': 'perturb', 'seed': 363380031, 'frac': 0.6, 'modes': ['neg', 'zero', 'digits'], 'first_rows': False}),
 ]
+# layout-inference variants, per file of a simulator that infers column boundaries from the first printed row: the first
+# row of every table holds the narrowest printable number (0.00 right-aligned) in every / every even / every odd value
+# column while all other rows keep their (wider) numbers, so a boundary taken from where the first row's numbers happen
+# to start or end, rather than from the end of the previous field, cuts digits off the other rows
+LAYOUT_VARIANTS = [{'kind': 'perturb', 'seed': 5, 'frac': 0.0, 'modes': ['zero'], 'first_rows': True, 'parity': par} for par in (None, 0, 1)]
 SAFE_MODES = ['digits', 'zero']      # same layout as the original: the reader cannot refuse these
 
 
@@ -1426,6 +1441,13 @@ def run(ctx):
             jobs.append(dict(rel=rel, family=fam_of[rel], vspec=vs, tmp=str(ctx.tmp), indices='all',
                              skips=[['connection'], ['element', 'generation']] if 'case11' in rel else [],
                              seed=1, dump=ctx.model_ok, addr_samples=12))
+    for rel, family in corpus():
+        if family == 'AUTOUGH2':
+            continue
+        for vs in LAYOUT_VARIANTS:
+            jobs.append(dict(rel=rel, family=family, vspec=vs, tmp=str(ctx.tmp), indices=ctx.n('some', 'all'), skips=[], seed=1,
+                             dump=ctx.model_ok and vs['parity'] is None, addr_samples=4))
+            res.count('layout-inference-variants')
     results = run_jobs('job_c05', jobs, timeout=ctx.n(120, 600))
     results = confirm_timeouts('job_c05', jobs, results, ctx.n(120, 600))
     # floor of accepted variants per file: a variant the reader refuses at open says nothing about the tables
